@@ -256,8 +256,8 @@ theorem saveLoad_normal_aux (hh : HeaderOk Gen.Registry.confFileHeader)
   · refine ⟨fun cv hcv => ⟨h.chans.1 cv hcv, h.rt (childName B cv.1, cv.2) (mem_entries_chan B t cv hcv),
       hcached (childName B cv.1, cv.2) (mem_entries_chan B t cv hcv)⟩, h.chans.2⟩
   · intro ns hns
-    obtain ⟨hlast, hco, hkd⟩ := h.nets ns hns
-    refine ⟨hlast, ?_, ?_, hkd⟩
+    obtain ⟨hco, hkd⟩ := h.nets ns hns
+    refine ⟨?_, ?_, hkd⟩
     · cases hs : ns.set with
       | some w =>
         have hm : (netName B ns.name, w) ∈ t.entries B :=
